@@ -793,7 +793,7 @@ fn gen_posarr(thorough: bool, r: &mut Rng, emit: Emit) {
             let mut x: u64 = 0;
             for _ in 0..r.range(1, 4) {
                 let rl = match r.below(4) { 0 => len as u64, 1 => (len as u64).saturating_sub(1), 2 => len as u64 + 1, _ => r.range(1, 64) }.min(64);
-                let off = r.below(65 - rl);
+                let off = r.below(65 - rl).min(63);
                 let m = if rl == 64 { u64::MAX } else { ((1u64 << rl) - 1) << off };
                 x |= m;
             }
